@@ -128,7 +128,25 @@ def run(ctx):
                 ctx.cov["traces_validated_against_impl"] = ctx.cov.get("traces_validated_against_impl", 0) + len(terms)
                 if bad and not ctx.violations:
                     ctx.broken.append("K_conc[%s]: model and implementation differ on schedule #%d of %s" % (proto, bad[0], cfg))
+    # free-running stress (support; also the search when the source tie breaks and the yield
+    # points are gone)
+    iters = 3000 if ctx.tier == "quick" else 40000
+    if "Match/MatcherTie.v" in failed:
+        iters *= 10
+    for proto in PROTOS:
+        rc, out = ctx.vh("vh-match", ["stress", proto, str(iters), "3"], timeout=1800)
+        try:
+            o = json.loads(out.strip().splitlines()[-1])
+        except Exception:
+            ctx.broken.append("stress[%s] failed: %s" % (proto, out[-300:]))
+            continue
+        ctx.count_case(("stress", proto, iters), True, "stress")
+        ctx.cov.setdefault("stress", {})[proto] = {"iterations": o["iterations"], "bad": o["bad"]}
+        if o["bad"]:
+            ctx.violation({"kind": "stress", "protocol": proto, "iterations": iters, "bad_runs": o["bad"], "first_bad": o["first_bad"],
+                           "how": "vh-match stress %s %d 3" % (proto, iters)})
     ctx.trusted += [
+        "translator vh-translate/matchers.go (go/ast: order of registerLock and sync.Map operations in the six register functions)",
         "deterministic scheduler harness/sched + verif yield hooks (counter, register lock/store, emit lock/index); between two yield points a goroutine runs alone",
         "mutual exclusion: the critical section of registerLock (LoadAndDelete; Store) is one atom of the proved machine; the lock-granular machine is checked against it exhaustively for 1 and 2 exchanges (theorem C10_lock_granular_small) and against the real code schedule by schedule",
         "modelled, not verified: sync.Map and sync.Mutex linearizable; partial w.r.t. the Go memory model (sequentially consistent interleavings of the hooked steps only); Kafka's polling matcher and the AMQP matcher share the http/redis register code shape (AMQP) or are request-store/response-poll (Kafka) and are exercised in their families",
